@@ -17,6 +17,7 @@ type Pkg struct {
 type File struct {
 	Proto   bool
 	Path    string // bundle-relative, e.g. foo/v1/a.j5s
+	DeclPkg string // j5s: name written in the `package` declaration; "" = the enclosing package's name
 	Imports []Import
 	Elems   []*Elem
 	// Proto files: exported names only
@@ -101,6 +102,9 @@ type Field struct {
 	Flatten bool    // object
 	Items   *Field  // array / map
 	Rules   []Rule
+	// enum only: listRules.filtering { filterable = true, defaultFilters = ListFilters } when HasList
+	HasList     bool
+	ListFilters []string
 }
 
 type EntKey struct {
